@@ -804,7 +804,8 @@ class BinaryQuadraticModel(QuadraticViewsMixin):
                         if ub_c-slack_upper_bound > 0:
                             zero_constraint = True
     
-                num_slack = int(np.floor(np.log2(slack_upper_bound)))
+                # exact floor(log2(.)): the float log2 rounds up to k just below 2**k, from 2**49 - 1 on
+                num_slack = slack_upper_bound.bit_length() - 1
                 slack_coefficients = [2 ** j for j in range(num_slack)]
                 if slack_upper_bound - 2 ** num_slack >= 0:
                     slack_coefficients.append(slack_upper_bound - 2 ** num_slack + 1)
